@@ -228,6 +228,72 @@ def pendingCalls (s : State) : Nat :=
   s.senders + s.writeCh + s.batch + s.wrReqs + (if s.gcRunning then 1 else 0) +
     (if s.cl = .notCalled ∨ s.cl = .returned then 0 else 1)
 
+/-! ## A scheduler that always finds progress (the witness used by `C38_no_stuck_partial`) -/
+
+/-- a step of the flusher or of the L0 compaction that is enabled whenever somebody waits for
+    room in `flushChan` -/
+def flushProgress (c : Cfg) (s : State) : Label :=
+  match s.fl with
+  | .idle => if 0 < s.flushChan then .flTake else .flExit
+  | .build => .flBuild
+  | .addL0 => if s.l0 < c.l0Stall then .flAdd else if 0 < s.l0comp then .compDone else .compStart 1
+  | .popImm => .flPop
+  | .exited => .flExit
+
+def writersProgress (s : State) : Label :=
+  match s.dw with
+  | .idle => if 0 < s.writeCh then .dwRecv else .send
+  | .collect => .dwPush
+  | .pushPending => .dwPushBlocking
+  | .closedDrain => .dwDrain
+  | .closedPush => .dwClosedPush
+  | .closedWrite => .wrRelease
+  | .exited => .send
+
+/-- The witness of progress: which non-poll step is enabled in a state with a pending call. -/
+def helper (c : Cfg) (s : State) : Label :=
+  match s.wr with
+  | .vlog => .wrVlog
+  | .ensure =>
+    if !s.mtFull then .wrRoomOk else if s.flushChan < c.numMemtables then .wrRotate else flushProgress c s
+  | .toLSM => .wrToLSM false
+  | .finish => .wrFinish
+  | .release => .wrRelease
+  | .none =>
+    if s.gcRunning then .gcDone else
+    match s.cl with
+    | .blocked => .closeGc
+    | .gcStopped => .closeSignalWrites
+    | .waitWrites =>
+      match s.dw with
+      | .exited => .closeWriteCh
+      | .idle => .dwSeeClosed
+      | .collect => .dwSeeClosed
+      | .pushPending => .dwPushBlocking
+      | .closedDrain => if 0 < s.writeCh then .dwDrain else .dwDrainDone
+      | .closedPush => .dwClosedPush
+      | .closedWrite => .wrRelease
+    | .pub => .closePub
+    | .mt =>
+      if !s.mtDirty then .closeSkipMt else if s.flushChan < c.numMemtables then .closePushMt
+      else flushProgress c s
+    | .stopFlush => .closeFlushChan
+    | .waitFlush => if s.fl = .exited then .closeSignalComp else flushProgress c s
+    | .waitComp => if s.l0comp = 0 then .closeCompDone else .compDone
+    | .tail => .closeReturn
+    | .notCalled => writersProgress s
+    | .returned => writersProgress s
+
+/-- Run `Close` (and everything it waits for) to completion by following `helper`; `fuel` bounds
+    the number of steps. -/
+def runHelper (c : Cfg) : Nat → State → State
+  | 0, s => s
+  | n + 1, s =>
+    if s.cl = .returned then s
+    else match step c s (helper c s) with
+      | some s' => runHelper c n s'
+      | none => s
+
 /-! ## The coarse state sampled by the harness -/
 
 /-- What the harness can observe through `db.Levels()` / the sampling hook. -/
